@@ -514,5 +514,6 @@ def guarded_cases(ctx, imports, prelude, fn, terms, shard, case_type, key):
                     if 'rc=124' not in str(e2):
                         raise
                     skipped += 1
+                    ctx.__dict__.setdefault('skipped_idx', {}).setdefault((key, fn), []).append(off + j)
     ctx.coverage[key + '_cases_skipped_for_cost'] = ctx.coverage.get(key + '_cases_skipped_for_cost', 0) + skipped
     return sorted(bad)
